@@ -5,6 +5,7 @@ import SpVerif.Ops.PusTm
 import SpVerif.Ops.DirectiveFixed
 import SpVerif.Ops.FileData
 import SpVerif.Ops.Uslp
+import SpVerif.Ops.DirectiveVar
 /-!
 # Driver ops for the setter state machines (prefix `c11_`)
 
@@ -301,6 +302,142 @@ def getFrameOp (j : Json) : R FrameOp := do
   else .error s!"unknown USLP setter {k}"
 end Uslp
 
+/-! ## stage-2 kinds: EOF, Finished, Metadata (argument formats of `Ops.DirectiveVar`) -/
+
+/-- `{"fill": item, "n": k}` stands for a list of `k` copies of `item` -/
+def expandFill (v : Json) : R Json :=
+  match v.getObjVal? "fill" with
+  | .ok item => do
+    let n ← getNat v "n"
+    pure (Json.arr (List.replicate n item).toArray)
+  | .error _ => pure v
+
+def pyTrue (r : Py Bool) : Bool :=
+  match r with
+  | .ok true => true
+  | _ => false
+
+def faultLenJ : Option Tlv.EntityIdTlv → Json
+  | some t => jn t.value.length
+  | none => Json.null
+
+section Eof
+open SpVerif.Eof
+
+def eofKind : Kind Eof EofOp where
+  m := eofMachine
+  pack := eofPack
+  reported := Eof.packetLen
+  required := fun b k => cfdpRequired k.fd.header b
+  beq := fun a b => pyTrue (a.beq b)
+  fresh := fun k => Eof.new k.fd.header.conf k.checksum k.fileSize k.faultLoc k.cond
+  extra := fun k => hdrExtra k.fd.header ++ [("fault_len", faultLenJ k.faultLoc)]
+
+def getEofInit (j : Json) : R (Py Eof) := do
+  let k ← Ops.DirectiveVar.getEof j
+  let via ← getBool j "via_unpack"
+  pure (do
+    let k ← k
+    if via then
+      let raw ← k.pack
+      Eof.unpack raw
+    else pure k)
+
+def getEofOp (j : Json) : R (Py EofOp) := do
+  let fl ← Ops.DirectiveVar.faultOf (← field j "v")
+  pure (EofOp.faultLoc <$> fl)
+end Eof
+
+section Finished
+open SpVerif.Finished
+
+def finKind : Kind FinS FinOp where
+  m := finMachine
+  pack := FinS.pack
+  reported := FinS.reported
+  required := fun b s => cfdpRequired s.obj.fd.header b
+  beq := fun a b => pyTrue (a.beq b)
+  fresh := fun s => do
+    let k ← Finished.new s.obj.fd.header.conf s.obj.cond s.obj.delivery s.obj.status s.obj.responses s.obj.faultLoc
+    pure (FinS.ofNew k)
+  extra := fun s => hdrExtra s.obj.fd.header ++ [("fault_len", faultLenJ s.obj.faultLoc),
+    ("nresp", jn s.obj.responses.length), ("cond", ji s.obj.cond)]
+
+def getFinInit (j : Json) : R (Py FinS) := do
+  let k ← Ops.DirectiveVar.getFin j
+  let via ← getBool j "via_unpack"
+  pure (do
+    let k ← k
+    if via then
+      let raw ← k.pack
+      let u ← Finished.unpack raw
+      pure (FinS.ofNew u)
+    else pure (FinS.ofNew k))
+
+def getFinOp (j : Json) : R (Py FinOp) := do
+  let name ← getStr j "set"
+  let v ← field j "v"
+  if name == "fault" then
+    let fl ← Ops.DirectiveVar.faultOf v
+    pure (FinOp.faultLoc <$> fl)
+  else if name == "cond" then
+    pure (.ok (.cond (← Ops.DirectiveVar.intOf v "cond")))
+  else if name == "responses" then
+    if v.isNull then pure (.ok (.responses none)) else
+    match (← expandFill v).getArr? with
+    | .ok a => do
+      let rs ← Ops.DirectiveVar.responsesOf a.toList
+      pure ((fun l => FinOp.responses (some l)) <$> rs)
+    | .error _ => .error "responses: not an array/null/fill"
+  else .error s!"unknown Finished setter {name}"
+end Finished
+
+section Metadata
+open SpVerif.Metadata
+
+def mdKind : Kind Metadata MdOp where
+  m := mdMachine
+  pack := mdPack
+  reported := Metadata.packetLen
+  required := fun b k => cfdpRequired k.fd.header b
+  beq := fun a b => pyTrue (a.beq b)
+  fresh := fun k => Metadata.new k.fd.header.conf k.closure k.checksumType k.fileSize (some k.srcLv.value)
+    (some k.dstLv.value) k.options
+  extra := fun k => hdrExtra k.fd.header ++ [("src_len", jn k.srcLv.value.length), ("dst_len", jn k.dstLv.value.length),
+    ("nopts", match k.options with | some l => jn l.length | none => Json.null)]
+
+def getMdInit (j : Json) : R (Py Metadata) := do
+  let k ← Ops.DirectiveVar.getMd j
+  let via ← getBool j "via_unpack"
+  pure (do
+    let k ← k
+    if via then
+      let raw ← k.pack
+      Metadata.unpack raw
+    else pure k)
+
+def getMdOp (j : Json) : R (Py MdOp) := do
+  let name ← getStr j "set"
+  let v ← field j "v"
+  if name == "options" then
+    let o ← Ops.DirectiveVar.optionsOf (← expandFill v)
+    pure (MdOp.options <$> o)
+  else if name == "src" then pure (.ok (.srcName (← Ops.DirectiveVar.hexOptOf v "src")))
+  else if name == "dst" then pure (.ok (.dstName (← Ops.DirectiveVar.hexOptOf v "dst")))
+  else .error s!"unknown Metadata setter {name}"
+end Metadata
+
+/-- like `handler`, for kinds whose setter ARGUMENTS are built by constructors that can refuse
+    (`EntityIdTlv(...)`, `CfdpTlv(...)`, `CfdpLv(...)`): the generators only produce constructible
+    arguments; a refusal is the op's error -/
+def handlerPy (k : Kind S O) (getInit : Json → R (Py S)) (getOp : Json → R (Py O)) : Handler := fun j => do
+  let s ← getInit j
+  let ops ← (← getArr j "steps").mapM getOp
+  pure (res (fun (x : S × List O) => runJ k x.1 x.2) (do
+    let s ← s
+    let ops ← Ops.DirectiveVar.seqPy ops
+    pure (s, ops)))
+
 /-- what the caller of a CFDP constructor sees of its own `PduConfig` afterwards -/
 def confJ (c : CfdpHeader.PduConfig) : Json :=
   obj [("src_w", jn c.source.width), ("src_v", jn c.source.value), ("dst_w", jn c.dest.width),
@@ -315,6 +452,9 @@ def ops : List (String × Handler) := [
   ("c11_ka", handler kaKind getKaInit getKaOp),
   ("c11_fd", handler fdKind getFdInit getFdOp),
   ("c11_frame", handler frameKind getFrameInit getFrameOp),
+  ("c11_eof", handlerPy eofKind getEofInit getEofOp),
+  ("c11_fin", handlerPy finKind getFinInit getFinOp),
+  ("c11_md", handlerPy mdKind getMdInit getMdOp),
   -- caller's configuration after construction (stage-1 CFDP kinds with a Lean constructor model):
   -- the object's direction, and the caller's configuration as it is afterwards
   ("c11_conf", fun j => do
@@ -327,13 +467,16 @@ def ops : List (String × Handler) := [
           if kind == "nak" then (Nak.Nak.new c 0 0 []) >>= fun k => pure k.fd.header
           else if kind == "keepalive" then (KeepAlive.KeepAlive.new c 0) >>= fun k => pure k.fd.header
           else if kind == "filedata" then (FileData.Pdu.new c FileData.Params.empty) >>= fun p => pure p.header
+          else if kind == "eof" then (Eof.Eof.new c [0, 0, 0, 0] 0 none 0) >>= fun k => pure k.fd.header
+          else if kind == "finished" then (Finished.Finished.new c 0 0 0 [] none) >>= fun k => pure k.fd.header
+          else if kind == "metadata" then (Metadata.Metadata.new c false 0 0 none none none) >>= fun k => pure k.fd.header
           else .error .type
         withCaller c (dirOf h)))),
   -- caller-supplied objects after construction and `pack()` for the kinds the functional model
   -- cannot say more about than `withCaller` does (values are copied, never shared): the
   -- implementation side deep-compares the real objects, the model's verdict is constant
   ("c11_inputs", fun _ => do pure (obj [("ok", obj [("untouched", jb true)])])),
-  -- setter sequences of kinds whose Lean state machine is not merged yet: checked on the real code alone
+  -- kept for replay files of the period before the EOF / Finished / Metadata models were merged
   ("c11_selfcheck", fun _ => do pure (obj [("ok", obj [("held", jb true)])]))
 ]
 
